@@ -97,6 +97,8 @@ class PaneBase:
     def __class_getitem__(cls, params: t.Union[type, t.Tuple[type, ...]]):
         if not isinstance(params, tuple):
             params = (params,)
+        # (as for the generics of `typing`, `None` stands for its type)
+        params = tuple(type(None) if param is None else param for param in params)
         return _make_subclass(cls, params)
 
     def __repr__(self) -> str:
